@@ -108,6 +108,18 @@ package openapi3
 //@   ensures [no-external-read] !old(loader.IsExternalRefsAllowed) ==> extReads == old(extReads)
 //@   option safety-tags C20
 //@   tag C11
+//@ func (*Loader).resolveEncodingHeaders
+//@   requires loader != nil && pathOK(loader, documentPath)
+//@   loop * invariant loader.IsExternalRefsAllowed == old(loader.IsExternalRefsAllowed)
+//@   loop * invariant !old(loader.IsExternalRefsAllowed) ==> extReads == old(extReads)
+//@   loop * invariant pathOK(loader, documentPath)
+//@   modifies *
+//@   modifies extReads
+//@   preserves @C11 Loader.IsExternalRefsAllowed, url.URL.Scheme, url.URL.Opaque, url.URL.Host, url.URL.Path, url.URL.RawPath, url.URL.RawQuery
+//@   preserves @C11 rootURL
+//@   ensures [no-external-read] !old(loader.IsExternalRefsAllowed) ==> extReads == old(extReads)
+//@   option safety-tags C20
+//@   tag C11
 //@ func (*Loader).resolveParameterRef
 //@   requires loader != nil && pathOK(loader, documentPath)
 //@   loop * invariant loader.IsExternalRefsAllowed == old(loader.IsExternalRefsAllowed)
@@ -308,3 +320,8 @@ package openapi3
 //@ onlycalledby @C11 os.Open : -
 //@ onlycalledby @C11 net/http.Get : -
 //@ onlycalledby @C11 (*Loader).readURL : (*Loader).loadFromURIInternal, (*Loader).loadSingleElementFromURI, (*Loader).resolveComponent
+
+// C02 (walk completeness only): reference resolution reads every field of the document types that
+// can hold a reference wrapper; a field it never reads is a position whose references are never
+// resolved.
+//@ refwalk @C02 (*Loader).ResolveRefsIn : SchemaRef, ParameterRef, HeaderRef, RequestBodyRef, ResponseRef, SecuritySchemeRef, ExampleRef, LinkRef, CallbackRef, MediaType, Encoding, Operation, PathItem, Responses, Paths, Components
